@@ -210,6 +210,23 @@ def cases(seed: int = 0, thorough: bool = False):
             np.s_[0:0], np.s_[5:1:-2, 2:0:-1], np.s_[-100:100]]
     for ix in idxs:
         add(f"index:{ix}", lambda x, ix=ix: x[ix], lambda x, ix=ix: x[ix], {"x": a3}, "index", exact=True)
+    # the same spelled with NumPy integers (kept as given inside BasicIndex / NormalizedSlice)
+    i8, i4, u1 = np.int64, np.int32, np.uint8
+    for k, ix in enumerate([np.s_[i8(1)], np.s_[i8(-1), i4(2)], np.s_[:, i8(1):i8(3)], np.s_[::i8(-1)],
+                            np.s_[i8(1), ::i4(2), i8(-3):], np.s_[i8(-100):i8(100)], np.s_[u1(1)], np.s_[u1(0):u1(2), u1(2)],
+                            np.s_[i8(5):i8(1):i8(-2), i8(2):i8(0):i8(-1)], np.s_[i8(-10)::i8(-1)], np.s_[i4(-10)::i4(-1), i8(1)],
+                            np.s_[..., i8(0)], np.s_[:, None, i4(1)], np.s_[i8(0):i8(0)]]):
+        add(f"index-numpy-int:{k}:{ix}", lambda x, ix=ix: x[ix], lambda x, ix=ix: x[ix], {"x": a3}, "index", exact=True)
+    # narrow / unsigned NumPy integers whose arithmetic with the axis length would wrap or overflow
+    a300 = _arr(rng, (300,), "float64")
+    i1_, u8 = np.int8, np.uint64
+    for k, ix in enumerate([np.s_[i1_(100)], np.s_[i1_(-100)], np.s_[u1(255)], np.s_[u1(2)], np.s_[u8(299)], np.s_[u8(300)],
+                            np.s_[i1_(100):], np.s_[i1_(-100):i1_(-1)], np.s_[u1(5):u1(200):u1(3)], np.s_[::i1_(-1)],
+                            np.s_[u1(250)::i1_(-7)], np.s_[u8(10):u8(2):i1_(-1)], np.s_[np.uint16(301)], np.s_[np.int16(-301)]]):
+        add(f"index-narrow-int:{k}:{ix}", lambda x, ix=ix: x[ix], lambda x, ix=ix: x[ix], {"x": a300}, "index", exact=True)
+    for k, ix in enumerate([np.s_[0:2, u1(3)], np.s_[u1(2)], np.s_[0, u1(2), u1(4)], np.s_[u8(1), u8(2), u8(3)], np.s_[:, :, u1(255)],
+                            np.s_[i1_(-3)], np.s_[:, i1_(-4)]]):
+        add(f"index-unsigned-bounds:{k}:{ix}", lambda x, ix=ix: x[ix], lambda x, ix=ix: x[ix], {"x": a3}, "index", exact=True)
     # slice bounds at and around +-len, every sign of the step (second axis of a (2, 4) array)
     a24 = _arr(rng, (2, 4), "float64")
     for st, sp, step in itertools.product([None, -5, -4, -3, 0, 3, 4, 5], [None, -5, -4, -3, 0, 3, 4, 5], [1, 2, -1, -2]):
@@ -221,6 +238,10 @@ def cases(seed: int = 0, thorough: bool = False):
                     ("x[0, j]", lambda x, i, j: x[0, j]), ("x[:, j, 1]", lambda x, i, j: x[:, j, 1]),
                     ("x[i % 2, ::2, i]", lambda x, i, j: x[i % 2, ::2, i])]:
         add(f"advindex:{lbl}", mk, mk, {"x": a3, "i": i1, "j": i2}, "index", exact=True)
+    for lbl, mk in [("x[int64(1), i]", lambda x, i, j: x[np.int64(1), i]), ("x[i, int32(-1)]", lambda x, i, j: x[i, np.int32(-1)]),
+                    ("x[i, ::int64(2), int64(0)]", lambda x, i, j: x[i, ::np.int64(2), np.int64(0)]),
+                    ("x[int64(0), :, j]", lambda x, i, j: x[np.int64(0), :, j])]:
+        add(f"advindex-numpy-int:{lbl}", mk, mk, {"x": a3, "i": i1, "j": i2}, "index", exact=True)
     # constructors
     for sh in [(2, 3), (), (0, 2)]:
         for dt in ("float64", "int32", "bool"):
